@@ -143,6 +143,17 @@ func main() {
 		workers = 12
 	}
 	evid.Parallel(nTrees, workers, func(i int) { rn.runTree(i, -1) })
+	// Fallback cases (fallback.go): aborted restore of a newer checkpoint, restore of an older one,
+	// forward sync with write logs through the aborted version.
+	nFallback := r.Pick(24, 600)
+	evid.Parallel(nFallback, workers, func(i int) {
+		st := stats{}
+		for _, b := range []string{"badger", "pathbadger"} {
+			rn.fallbackCase(i, b, st)
+			r.Eval(1)
+		}
+		rn.merge(st)
+	})
 	rn.finish(r.Pick(40, 150))
 }
 
